@@ -312,10 +312,10 @@ func (q *weightedFairQueueingPendingQueuePolicy) Push(chunk StreamSchedulerChunk
 }
 
 func (q *weightedFairQueueingPendingQueuePolicy) Peek() StreamSchedulerChunk {
-	if q.streamSelected {
-		return q.streamQueues[q.selectedStream].get(0)
-	}
-
+	// The selection is recomputed on every call: a chunk that was peeked but not
+	// popped (congestion or receiver window closed) must not keep its turn when
+	// chunks with a smaller finish tag have been queued meanwhile, otherwise the
+	// stream is served one chunk ahead of its fair share.
 	var (
 		selectedChunk  *chunkPayloadData
 		selectedStream uint16
